@@ -167,3 +167,734 @@ pub proof fn lemma_align_up(a: u64, align: u64)
 //@ A
     ensures r == self.0,
 //@ end
+
+//@ fn src/addr.rs | impl VirtAddr | from_ptr
+//@ obligation C03 C03.VirtAddr_from_ptr.valid_or_panic
+//@ sub /ptr as \*const \(\) as u64/ => ptr_to_u64(ptr)
+//@ A
+    requires canonical(ptr_addr_spec(ptr)),
+    ensures r.0 == ptr_addr_spec(ptr), wf_v(r),
+//@ B
+    ensures canonical(ptr_addr_spec(ptr)), r.0 == ptr_addr_spec(ptr), wf_v(r),
+//@ end
+
+//@ fn src/addr.rs | impl VirtAddr | is_null
+//@ A
+    ensures r == (self.0 == 0),
+//@ end
+
+//@ fn src/addr.rs | impl VirtAddr | align_up
+//@ obligation C06 C06.VirtAddr_align_up.least_canonical_multiple
+//@ obligation C03 C03.VirtAddr_align_up.valid
+//@ A
+    requires
+        <U as IntoSpec<u64>>::obeys_into_spec(),
+        pow2_u64(into_u64(align)), align_up_int(self.0, into_u64(align)) <= u64::MAX,
+    ensures
+        wf_v(r),
+        r.0 == sext48(align_up_int(self.0, into_u64(align)) as u64),
+        // for canonical self and alignments up to 2^47 the result is the least canonical multiple not below self
+        wf_v(self) && into_u64(align) <= 0x8000_0000_0000 ==>
+            is_mult(r.0 as int, into_u64(align) as int)
+            && (r.0 as int == align_up_int(self.0, into_u64(align))
+                // rounding a lower-half address up to 2^47 lands on the first upper-half address
+                || (align_up_int(self.0, into_u64(align)) == 0x8000_0000_0000 && r.0 == 0xffff_8000_0000_0000)),
+//@ B
+    requires <U as IntoSpec<u64>>::obeys_into_spec(),
+    ensures
+        pow2_u64(into_u64(align)), align_up_int(self.0, into_u64(align)) <= u64::MAX,
+        wf_v(r),
+        r.0 == sext48(align_up_int(self.0, into_u64(align)) as u64),
+//@ proof
+        lemma_virt_align_up(self.0, into_u64(align));
+//@ end
+
+//@ fn src/addr.rs | impl VirtAddr | align_down
+//@ obligation C06 C06.VirtAddr_align_down.greatest_canonical_multiple
+//@ obligation C03 C03.VirtAddr_align_down.valid
+//@ A
+    requires <U as IntoSpec<u64>>::obeys_into_spec(), pow2_u64(into_u64(align)),
+    ensures
+        wf_v(r),
+        r.0 == sext48(align_down_spec(self.0, into_u64(align))),
+        wf_v(self) && into_u64(align) <= 0x8000_0000_0000 ==> r.0 == align_down_spec(self.0, into_u64(align)),
+//@ B
+    requires <U as IntoSpec<u64>>::obeys_into_spec(),
+    ensures
+        pow2_u64(into_u64(align)),
+        wf_v(r),
+        r.0 == sext48(align_down_spec(self.0, into_u64(align))),
+        wf_v(self) && into_u64(align) <= 0x8000_0000_0000 ==> r.0 == align_down_spec(self.0, into_u64(align)),
+//@ end
+
+//@ fn src/addr.rs | impl VirtAddr | align_down_u64
+//@ obligation C06 C06.VirtAddr_align_down_u64.greatest_canonical_multiple
+//@ obligation C03 C03.VirtAddr_align_down_u64.valid
+//@ A
+    requires pow2_u64(align),
+    ensures
+        wf_v(r),
+        r.0 == sext48(align_down_spec(self.0, align)),
+        // canonical input, alignment up to 2^47: exactly the greatest multiple, which is canonical and in the same half
+        wf_v(self) && align <= 0x8000_0000_0000 ==>
+            r.0 == align_down_spec(self.0, align) && r.0 <= self.0 && self.0 - r.0 < align
+            && is_mult(r.0 as int, align as int)
+            && (forall|m: u64| #[trigger] is_mult(m as int, align as int) && m <= self.0 ==> m <= r.0)
+            && same_half(r.0, self.0),
+//@ B
+    ensures
+        pow2_u64(align),
+        wf_v(r),
+        r.0 == sext48(align_down_spec(self.0, align)),
+        wf_v(self) && align <= 0x8000_0000_0000 ==>
+            r.0 == align_down_spec(self.0, align) && r.0 <= self.0 && self.0 - r.0 < align
+            && is_mult(r.0 as int, align as int)
+            && (forall|m: u64| #[trigger] is_mult(m as int, align as int) && m <= self.0 ==> m <= r.0)
+            && same_half(r.0, self.0),
+//@ proof
+        if pow2_u64(align) { lemma_virt_align_down(self.0, align); }
+//@ end
+
+//@ fn src/addr.rs | impl VirtAddr | is_aligned
+//@ obligation C06 C06.VirtAddr_is_aligned.iff_multiple
+//@ A
+    requires <U as IntoSpec<u64>>::obeys_into_spec(), pow2_u64(into_u64(align)), wf_v(self), into_u64(align) <= 0x8000_0000_0000,
+    ensures r == is_mult(self.0 as int, into_u64(align) as int),
+//@ B
+    requires <U as IntoSpec<u64>>::obeys_into_spec(), wf_v(self), into_u64(align) <= 0x8000_0000_0000,
+    ensures pow2_u64(into_u64(align)), r == is_mult(self.0 as int, into_u64(align) as int),
+//@ end
+
+//@ fn src/addr.rs | impl VirtAddr | is_aligned_u64
+//@ obligation C06 C06.VirtAddr_is_aligned_u64.iff_multiple
+//@ A
+    requires pow2_u64(align), wf_v(self), align <= 0x8000_0000_0000,
+    ensures r == is_mult(self.0 as int, align as int),
+//@ B
+    requires wf_v(self), align <= 0x8000_0000_0000,
+    ensures pow2_u64(align), r == is_mult(self.0 as int, align as int),
+//@ proof
+        if pow2_u64(align) { lemma_virt_align_down(self.0, align); lemma_align_down(self.0, align); }
+//@ end
+
+//@ verbatim
+pub proof fn lemma_virt_align_down(a: u64, align: u64)
+    requires pow2_u64(align)
+    ensures
+        canonical(a) && align <= 0x8000_0000_0000 ==> canonical(align_down_spec(a, align))
+            && sext48(align_down_spec(a, align)) == align_down_spec(a, align)
+            && same_half(align_down_spec(a, align), a),
+{
+    lemma_align_down(a, align);
+    lemma_pow2_is_shift(align);
+    let k: u64 = choose|k: u64| k < 64 && align == (1u64 << k);
+    assert(k < 64 && (1u64 << k) <= 0x8000_0000_0000 ==> k <= 47) by (bit_vector);
+    assert(k <= 47 && canonical(a) ==> canonical(a & !sub(1u64 << k, 1)) && ((a & !sub(1u64 << k, 1)) >> 47) == (a >> 47)) by (bit_vector);
+    lemma_sext48(align_down_spec(a, align));
+}
+
+pub proof fn lemma_virt_align_up(a: u64, align: u64)
+    ensures
+        pow2_u64(align) && align_up_int(a, align) <= u64::MAX && canonical(a) && align <= 0x8000_0000_0000 ==> ({
+            let up = align_up_int(a, align) as u64;
+            is_mult(sext48(up) as int, align as int)
+            && (sext48(up) == up || (up == 0x8000_0000_0000 && sext48(up) == 0xffff_8000_0000_0000))
+        }),
+{
+    if pow2_u64(align) && align_up_int(a, align) <= u64::MAX && canonical(a) && align <= 0x8000_0000_0000 {
+        lemma_align_up(a, align);
+        lemma_canonical_halves(a);
+        let up = align_up_int(a, align) as u64;
+        lemma_sext48(up);
+        lemma_canonical_halves(up);
+        lemma_pow2_is_shift(align);
+        let k: u64 = choose|k: u64| k < 64 && align == (1u64 << k);
+        assert(k < 64 && (1u64 << k) <= 0x8000_0000_0000 ==> k <= 47) by (bit_vector);
+        if a < 0x8000_0000_0000 {
+            // up <= 2^47 because 2^47 is itself a multiple of align
+            assert(k <= 47 ==> 0x8000_0000_0000u64 % (1u64 << k) == 0) by (bit_vector);
+            assert(is_mult(0x8000_0000_0000int, align as int));
+            assert(up <= 0x8000_0000_0000);
+            if up == 0x8000_0000_0000 {
+                assert(sext48(0x8000_0000_0000u64) == 0xffff_8000_0000_0000u64) by (bit_vector);
+                assert(k <= 47 ==> 0xffff_8000_0000_0000u64 % (1u64 << k) == 0) by (bit_vector);
+            }
+        } else {
+            // upper half: up >= a stays in the upper half (no overflow by assumption)
+            assert(up >= 0xffff_8000_0000_0000);
+        }
+    }
+}
+//@ end
+
+// ---------------------------------------------------------------------------
+// VirtAddr index accessors (C04)
+
+//@ fn src/addr.rs | impl VirtAddr | page_offset
+//@ obligation C04 C04.VirtAddr_page_offset.bits_0_11
+//@ A
+    ensures r.0 as u64 == self.0 & 0xfff, r.0 < 4096,
+//@ proof
+        let a = self.0;
+        assert((a as u16) % 4096u16 == (a & 0xfff) as u16) by (bit_vector);
+        assert((a & 0xfff) < 4096) by (bit_vector);
+//@ end
+
+//@ fn src/addr.rs | impl VirtAddr | p1_index
+//@ obligation C04 C04.VirtAddr_p1_index.bits_12_20
+//@ A
+    ensures r.0 as u64 == (self.0 >> 12) & 0x1ff, r.0 < 512,
+//@ proof
+        let a = self.0;
+        assert(((a >> 12) as u16) % 512u16 == ((a >> 12) & 0x1ff) as u16) by (bit_vector);
+        assert(((a >> 12) & 0x1ff) < 512) by (bit_vector);
+//@ end
+
+//@ fn src/addr.rs | impl VirtAddr | p2_index
+//@ obligation C04 C04.VirtAddr_p2_index.bits_21_29
+//@ A
+    ensures r.0 as u64 == (self.0 >> 21) & 0x1ff, r.0 < 512,
+//@ proof
+        let a = self.0;
+        assert(((a >> 12 >> 9) as u16) % 512u16 == ((a >> 21) & 0x1ff) as u16) by (bit_vector);
+        assert(((a >> 21) & 0x1ff) < 512) by (bit_vector);
+//@ end
+
+//@ fn src/addr.rs | impl VirtAddr | p3_index
+//@ obligation C04 C04.VirtAddr_p3_index.bits_30_38
+//@ A
+    ensures r.0 as u64 == (self.0 >> 30) & 0x1ff, r.0 < 512,
+//@ proof
+        let a = self.0;
+        assert(((a >> 12 >> 9 >> 9) as u16) % 512u16 == ((a >> 30) & 0x1ff) as u16) by (bit_vector);
+        assert(((a >> 30) & 0x1ff) < 512) by (bit_vector);
+//@ end
+
+//@ fn src/addr.rs | impl VirtAddr | p4_index
+//@ obligation C04 C04.VirtAddr_p4_index.bits_39_47
+//@ A
+    ensures r.0 as u64 == (self.0 >> 39) & 0x1ff, r.0 < 512,
+//@ proof
+        let a = self.0;
+        assert(((a >> 12 >> 9 >> 9 >> 9) as u16) % 512u16 == ((a >> 39) & 0x1ff) as u16) by (bit_vector);
+        assert(((a >> 39) & 0x1ff) < 512) by (bit_vector);
+//@ end
+
+//@ fn src/addr.rs | impl VirtAddr | page_table_index
+//@ obligation C04 C04.VirtAddr_page_table_index.by_level
+//@ A
+    ensures
+        r.0 < 512,
+        r.0 as u64 == (self.0 >> level_shift(level)) & 0x1ff,
+//@ proof
+        let a = self.0;
+        assert(((a >> 12 >> 0u8) as u16) % 512u16 == ((a >> 12) & 0x1ff) as u16) by (bit_vector);
+        assert(((a >> 12 >> 9u8) as u16) % 512u16 == ((a >> 21) & 0x1ff) as u16) by (bit_vector);
+        assert(((a >> 12 >> 18u8) as u16) % 512u16 == ((a >> 30) & 0x1ff) as u16) by (bit_vector);
+        assert(((a >> 12 >> 27u8) as u16) % 512u16 == ((a >> 39) & 0x1ff) as u16) by (bit_vector);
+        assert(((a >> 12) & 0x1ff) < 512) by (bit_vector);
+        assert(((a >> 21) & 0x1ff) < 512) by (bit_vector);
+        assert(((a >> 30) & 0x1ff) < 512) by (bit_vector);
+        assert(((a >> 39) & 0x1ff) < 512) by (bit_vector);
+//@ end
+
+// ---------------------------------------------------------------------------
+// stepping (C05)
+
+//@ verbatim
+pub proof fn lemma_bits47(v: u64)
+    ensures
+        get_bits_u64(v, 47, 64) == v >> 47,
+        set_bits_u64(v, 47, 64, 0x1ffff) == v | 0xffff_8000_0000_0000,
+        set_bits_u64(v, 47, 64, 0) == v & 0x7fff_ffff_ffff,
+        u64::bf_fits(0x1ffff, 17), u64::bf_fits(0, 17),
+{
+    assert(mask_u64(47, 64) == 0xffff_8000_0000_0000u64) by (compute);
+    assert((v & 0xffff_8000_0000_0000u64) >> 47u64 == v >> 47) by (bit_vector);
+    assert((v & !0xffff_8000_0000_0000u64) | (0x1ffffu64 << 47u64) == v | 0xffff_8000_0000_0000) by (bit_vector);
+    assert((v & !0xffff_8000_0000_0000u64) | (0u64 << 47u64) == v & 0x7fff_ffff_ffff) by (bit_vector);
+    assert(0x1ffffu64 < (1u64 << 17u64)) by (bit_vector);
+    assert(0u64 < (1u64 << 17u64)) by (bit_vector);
+}
+
+pub proof fn lemma_shift47_ranges(a: u64)
+    ensures
+        (a >> 47) == 0 <==> a < 0x8000_0000_0000,
+        (a >> 47) == 1 <==> 0x8000_0000_0000 <= a < 0x1_0000_0000_0000,
+        (a >> 47) == 2 <==> 0x1_0000_0000_0000 <= a < 0x1_8000_0000_0000,
+        (a >> 47) == 0x1ffff <==> a >= 0xffff_8000_0000_0000,
+        (a >> 47) == 0x1fffe <==> 0xffff_0000_0000_0000 <= a < 0xffff_8000_0000_0000,
+        (a >> 47) == 0x1fffd <==> 0xfffe_8000_0000_0000 <= a < 0xffff_0000_0000_0000,
+{
+    assert((a >> 47) == 0 <==> a < 0x8000_0000_0000) by (bit_vector);
+    assert((a >> 47) == 1 <==> 0x8000_0000_0000 <= a < 0x1_0000_0000_0000) by (bit_vector);
+    assert((a >> 47) == 2 <==> 0x1_0000_0000_0000 <= a < 0x1_8000_0000_0000) by (bit_vector);
+    assert((a >> 47) == 0x1ffff <==> a >= 0xffff_8000_0000_0000) by (bit_vector);
+    assert((a >> 47) == 0x1fffe <==> 0xffff_0000_0000_0000 <= a < 0xffff_8000_0000_0000) by (bit_vector);
+    assert((a >> 47) == 0x1fffd <==> 0xfffe_8000_0000_0000 <= a < 0xffff_0000_0000_0000) by (bit_vector);
+}
+
+pub proof fn lemma_gap_jump(a: u64)
+    ensures
+        0x8000_0000_0000 <= a < 0x1_0000_0000_0000 ==> canonical(a | 0xffff_8000_0000_0000) && pos(a | 0xffff_8000_0000_0000) == a,
+        0xffff_0000_0000_0000 <= a < 0xffff_8000_0000_0000 ==> canonical(a & 0x7fff_ffff_ffff) && pos(a & 0x7fff_ffff_ffff) == a - 0xffff_0000_0000_0000,
+{
+    assert(0x8000_0000_0000 <= a < 0x1_0000_0000_0000 ==> canonical(a | 0xffff_8000_0000_0000) && ((a | 0xffff_8000_0000_0000) & 0xffff_ffff_ffff) == a) by (bit_vector);
+    assert(0xffff_0000_0000_0000 <= a < 0xffff_8000_0000_0000 ==> canonical(a & 0x7fff_ffff_ffff) && ((a & 0x7fff_ffff_ffff) & 0xffff_ffff_ffff) == sub(a, 0xffff_0000_0000_0000)) by (bit_vector);
+}
+
+pub proof fn lemma_steps_mask(s: u64, e: u64)
+    requires canonical(s), canonical(e), s <= e
+    ensures ((e - s) as u64 & 0xffff_ffff_ffff) == pos(e) - pos(s)
+{
+    lemma_canonical_halves(s);
+    lemma_canonical_halves(e);
+    let d = (e - s) as u64;
+    assert(d < 0x1_0000_0000_0000 ==> d & 0xffff_ffff_ffff == d) by (bit_vector);
+    if s < 0x8000_0000_0000 && e >= 0xffff_8000_0000_0000 {
+        assert(s < 0x8000_0000_0000 && e >= 0xffff_8000_0000_0000 ==> (sub(e, s) & 0xffff_ffff_ffff) == sub(sub(e, 0xffff_0000_0000_0000), s)) by (bit_vector);
+    }
+}
+//@ end
+
+//@ fn src/addr.rs | impl VirtAddr | steps_between_u64
+//@ obligation C05 C05.VirtAddr_steps_between_u64.exact_distance_or_none
+//@ A
+    requires wf_v(*start), wf_v(*end),
+    ensures
+        r is Some <==> pos(start.0) <= pos(end.0),
+        r is Some ==> r->Some_0 as int == pos(end.0) - pos(start.0),
+//@ proof
+        lemma_pos_order(start.0, end.0);
+        if start.0 <= end.0 { lemma_steps_mask(start.0, end.0); }
+//@ end
+
+//@ fn src/addr.rs | impl VirtAddr | steps_between_impl
+//@ obligation C05 C05.VirtAddr_steps_between_impl.exact_distance_or_none
+//@ A
+    requires wf_v(*start), wf_v(*end),
+    ensures
+        pos(start.0) <= pos(end.0) ==> r.1 == Some((pos(end.0) - pos(start.0)) as usize) && r.0 == (pos(end.0) - pos(start.0)) as usize,
+        pos(start.0) > pos(end.0) ==> r.1 is None && r.0 == 0,
+//@ proof
+        lemma_canonical_halves(start.0); lemma_canonical_halves(end.0);
+//@ end
+
+//@ fn src/addr.rs | impl VirtAddr | forward_checked_u64
+//@ obligation C05 C05.VirtAddr_forward_checked_u64.lands_n_later_or_none
+//@ obligation C03 C03.VirtAddr_forward_checked_u64.valid
+//@ A
+    requires wf_v(start),
+    ensures
+        r is Some <==> pos(start.0) + count < 0x1_0000_0000_0000,
+        r is Some ==> wf_v(r->Some_0) && pos(r->Some_0.0) == pos(start.0) + count,
+//@ proof
+        lemma_canonical_halves(start.0);
+        if start.0 as int + count as int <= u64::MAX {
+            let a = (start.0 + count) as u64;
+            lemma_bits47(a); lemma_shift47_ranges(a); lemma_gap_jump(a); lemma_canonical_halves(a);
+        }
+//@ end
+
+//@ fn src/addr.rs | impl VirtAddr | forward_checked_impl
+//@ obligation C05 C05.VirtAddr_forward_checked_impl.lands_n_later_or_none
+//@ A
+    requires wf_v(start),
+    ensures
+        r is Some <==> pos(start.0) + count < 0x1_0000_0000_0000,
+        r is Some ==> wf_v(r->Some_0) && pos(r->Some_0.0) == pos(start.0) + count,
+//@ end
+
+//@ fn src/addr.rs | impl VirtAddr | backward_checked_u64
+//@ obligation C05 C05.VirtAddr_backward_checked_u64.lands_n_earlier_or_none
+//@ obligation C03 C03.VirtAddr_backward_checked_u64.valid
+//@ A
+    requires wf_v(start),
+    ensures
+        r is Some <==> pos(start.0) - count >= 0,
+        r is Some ==> wf_v(r->Some_0) && pos(r->Some_0.0) == pos(start.0) - count,
+//@ proof
+        lemma_canonical_halves(start.0);
+        if start.0 >= count {
+            let a = (start.0 - count) as u64;
+            lemma_bits47(a); lemma_shift47_ranges(a); lemma_gap_jump(a); lemma_canonical_halves(a);
+        }
+//@ end
+
+//@ fn src/addr.rs | impl Step for VirtAddr | steps_between
+//@ as impl VirtAddr
+//@ obligation C05 C05.VirtAddr_Step_steps_between.exact_distance_or_none
+//@ A
+    requires wf_v(*start), wf_v(*end),
+    ensures
+        pos(start.0) <= pos(end.0) ==> r.1 == Some((pos(end.0) - pos(start.0)) as usize) && r.0 == (pos(end.0) - pos(start.0)) as usize,
+        pos(start.0) > pos(end.0) ==> r.1 is None && r.0 == 0,
+//@ end
+
+//@ fn src/addr.rs | impl Step for VirtAddr | forward_checked
+//@ as impl VirtAddr
+//@ obligation C05 C05.VirtAddr_Step_forward_checked.lands_n_later_or_none
+//@ obligation C03 C03.VirtAddr_Step_forward_checked.valid
+//@ A
+    requires wf_v(start),
+    ensures
+        r is Some <==> pos(start.0) + count < 0x1_0000_0000_0000,
+        r is Some ==> wf_v(r->Some_0) && pos(r->Some_0.0) == pos(start.0) + count,
+//@ end
+
+//@ fn src/addr.rs | impl Step for VirtAddr | backward_checked
+//@ as impl VirtAddr
+//@ obligation C05 C05.VirtAddr_Step_backward_checked.lands_n_earlier_or_none
+//@ obligation C03 C03.VirtAddr_Step_backward_checked.valid
+//@ A
+    requires wf_v(start),
+    ensures
+        r is Some <==> pos(start.0) - count >= 0,
+        r is Some ==> wf_v(r->Some_0) && pos(r->Some_0.0) == pos(start.0) - count,
+//@ end
+
+//@ verbatim
+/// C05: forward, backward and steps-between are mutually inverse (two-line lemmas over the contracts above:
+/// positions are unique names of canonical addresses, lemma_pos_injective).
+pub proof fn lemma_step_inverse(s: u64, n: int, f: u64)
+    requires canonical(s), canonical(f), 0 <= n, pos(f) == pos(s) + n
+    ensures
+        // backward from f by n lands on s; steps_between(s, f) == n
+        forall|b: u64| canonical(b) && pos(b) == pos(f) - n ==> b == s,
+        pos(f) - pos(s) == n,
+{
+    assert forall|b: u64| canonical(b) && pos(b) == pos(f) - n implies b == s by {
+        lemma_pos_injective(b, s);
+    }
+}
+//@ end
+
+// ---------------------------------------------------------------------------
+// operators (C07 exact-or-panic, C03 validity)
+
+//@ verbatim A
+impl AddSpecImpl<u64> for VirtAddr {
+    open spec fn obeys_add_spec() -> bool { false }
+    open spec fn add_req(self, rhs: u64) -> bool { self.0 + rhs <= u64::MAX && canonical((self.0 + rhs) as u64) }
+    open spec fn add_spec(self, rhs: u64) -> VirtAddr { VirtAddr((self.0 + rhs) as u64) }
+}
+impl SubSpecImpl<u64> for VirtAddr {
+    open spec fn obeys_sub_spec() -> bool { false }
+    open spec fn sub_req(self, rhs: u64) -> bool { self.0 >= rhs && canonical((self.0 - rhs) as u64) }
+    open spec fn sub_spec(self, rhs: u64) -> VirtAddr { VirtAddr((self.0 - rhs) as u64) }
+}
+impl SubSpecImpl<VirtAddr> for VirtAddr {
+    open spec fn obeys_sub_spec() -> bool { false }
+    open spec fn sub_req(self, rhs: VirtAddr) -> bool { self.0 >= rhs.0 }
+    open spec fn sub_spec(self, rhs: VirtAddr) -> u64 { (self.0 - rhs.0) as u64 }
+}
+impl AddSpecImpl<u64> for PhysAddr {
+    open spec fn obeys_add_spec() -> bool { false }
+    open spec fn add_req(self, rhs: u64) -> bool { self.0 + rhs <= u64::MAX && phys_ok((self.0 + rhs) as u64) }
+    open spec fn add_spec(self, rhs: u64) -> PhysAddr { PhysAddr((self.0 + rhs) as u64) }
+}
+impl SubSpecImpl<u64> for PhysAddr {
+    open spec fn obeys_sub_spec() -> bool { false }
+    open spec fn sub_req(self, rhs: u64) -> bool { self.0 >= rhs && phys_ok((self.0 - rhs) as u64) }
+    open spec fn sub_spec(self, rhs: u64) -> PhysAddr { PhysAddr((self.0 - rhs) as u64) }
+}
+impl SubSpecImpl<PhysAddr> for PhysAddr {
+    open spec fn obeys_sub_spec() -> bool { false }
+    open spec fn sub_req(self, rhs: PhysAddr) -> bool { self.0 >= rhs.0 }
+    open spec fn sub_spec(self, rhs: PhysAddr) -> u64 { (self.0 - rhs.0) as u64 }
+}
+//@ end
+
+//@ verbatim B
+impl AddSpecImpl<u64> for VirtAddr {
+    open spec fn obeys_add_spec() -> bool { false }
+    open spec fn add_req(self, rhs: u64) -> bool { true }
+    open spec fn add_spec(self, rhs: u64) -> VirtAddr { VirtAddr((self.0 + rhs) as u64) }
+}
+impl SubSpecImpl<u64> for VirtAddr {
+    open spec fn obeys_sub_spec() -> bool { false }
+    open spec fn sub_req(self, rhs: u64) -> bool { true }
+    open spec fn sub_spec(self, rhs: u64) -> VirtAddr { VirtAddr((self.0 - rhs) as u64) }
+}
+impl SubSpecImpl<VirtAddr> for VirtAddr {
+    open spec fn obeys_sub_spec() -> bool { false }
+    open spec fn sub_req(self, rhs: VirtAddr) -> bool { true }
+    open spec fn sub_spec(self, rhs: VirtAddr) -> u64 { (self.0 - rhs.0) as u64 }
+}
+impl AddSpecImpl<u64> for PhysAddr {
+    open spec fn obeys_add_spec() -> bool { false }
+    open spec fn add_req(self, rhs: u64) -> bool { true }
+    open spec fn add_spec(self, rhs: u64) -> PhysAddr { PhysAddr((self.0 + rhs) as u64) }
+}
+impl SubSpecImpl<u64> for PhysAddr {
+    open spec fn obeys_sub_spec() -> bool { false }
+    open spec fn sub_req(self, rhs: u64) -> bool { true }
+    open spec fn sub_spec(self, rhs: u64) -> PhysAddr { PhysAddr((self.0 - rhs) as u64) }
+}
+impl SubSpecImpl<PhysAddr> for PhysAddr {
+    open spec fn obeys_sub_spec() -> bool { false }
+    open spec fn sub_req(self, rhs: PhysAddr) -> bool { true }
+    open spec fn sub_spec(self, rhs: PhysAddr) -> u64 { (self.0 - rhs.0) as u64 }
+}
+//@ end
+
+//@ fn src/addr.rs | impl Add<u64> for VirtAddr | add
+//@ obligation C07 C07.VirtAddr_add_u64.exact_or_panic
+//@ obligation C03 C03.VirtAddr_add_u64.valid
+//@ A
+    ensures r.0 == self.0 + rhs, wf_v(r),
+//@ B
+    ensures self.0 + rhs <= u64::MAX, canonical((self.0 + rhs) as u64), r.0 == self.0 + rhs, wf_v(r),
+//@ end
+
+//@ fn src/addr.rs | impl AddAssign<u64> for VirtAddr | add_assign
+//@ obligation C07 C07.VirtAddr_add_assign_u64.exact_or_panic
+//@ obligation C03 C03.VirtAddr_add_assign_u64.valid
+//@ A
+    ensures final(self).0 == old(self).0 + rhs, wf_v(*final(self)),
+//@ B
+    ensures old(self).0 + rhs <= u64::MAX, canonical((old(self).0 + rhs) as u64), final(self).0 == old(self).0 + rhs, wf_v(*final(self)),
+//@ end
+
+//@ fn src/addr.rs | impl Sub<u64> for VirtAddr | sub
+//@ obligation C07 C07.VirtAddr_sub_u64.exact_or_panic
+//@ obligation C03 C03.VirtAddr_sub_u64.valid
+//@ A
+    ensures r.0 == self.0 - rhs, wf_v(r),
+//@ B
+    ensures self.0 >= rhs, canonical((self.0 - rhs) as u64), r.0 == self.0 - rhs, wf_v(r),
+//@ end
+
+//@ fn src/addr.rs | impl SubAssign<u64> for VirtAddr | sub_assign
+//@ obligation C07 C07.VirtAddr_sub_assign_u64.exact_or_panic
+//@ obligation C03 C03.VirtAddr_sub_assign_u64.valid
+//@ A
+    ensures final(self).0 == old(self).0 - rhs, wf_v(*final(self)),
+//@ B
+    ensures old(self).0 >= rhs, canonical((old(self).0 - rhs) as u64), final(self).0 == old(self).0 - rhs, wf_v(*final(self)),
+//@ end
+
+//@ fn src/addr.rs | impl Sub<VirtAddr> for VirtAddr | sub
+//@ obligation C07 C07.VirtAddr_sub_VirtAddr.exact_or_panic
+//@ A
+    ensures r == self.0 - rhs.0,
+//@ B
+    ensures self.0 >= rhs.0, r == self.0 - rhs.0,
+//@ end
+
+//@ verbatim A
+impl AddAssignSpecImpl<u64> for VirtAddr {
+    open spec fn obeys_add_assign_spec() -> bool { false }
+    open spec fn add_assign_req(&self, rhs: u64) -> bool { self.0 + rhs <= u64::MAX && canonical((self.0 + rhs) as u64) }
+    open spec fn add_assign_spec(&self, rhs: u64) -> &VirtAddr { &VirtAddr((self.0 + rhs) as u64) }
+}
+impl SubAssignSpecImpl<u64> for VirtAddr {
+    open spec fn obeys_sub_assign_spec() -> bool { false }
+    open spec fn sub_assign_req(&self, rhs: u64) -> bool { self.0 >= rhs && canonical((self.0 - rhs) as u64) }
+    open spec fn sub_assign_spec(&self, rhs: u64) -> &VirtAddr { &VirtAddr((self.0 - rhs) as u64) }
+}
+impl AddAssignSpecImpl<u64> for PhysAddr {
+    open spec fn obeys_add_assign_spec() -> bool { false }
+    open spec fn add_assign_req(&self, rhs: u64) -> bool { self.0 + rhs <= u64::MAX && phys_ok((self.0 + rhs) as u64) }
+    open spec fn add_assign_spec(&self, rhs: u64) -> &PhysAddr { &PhysAddr((self.0 + rhs) as u64) }
+}
+impl SubAssignSpecImpl<u64> for PhysAddr {
+    open spec fn obeys_sub_assign_spec() -> bool { false }
+    open spec fn sub_assign_req(&self, rhs: u64) -> bool { self.0 >= rhs && phys_ok((self.0 - rhs) as u64) }
+    open spec fn sub_assign_spec(&self, rhs: u64) -> &PhysAddr { &PhysAddr((self.0 - rhs) as u64) }
+}
+//@ end
+
+//@ verbatim B
+impl AddAssignSpecImpl<u64> for VirtAddr {
+    open spec fn obeys_add_assign_spec() -> bool { false }
+    open spec fn add_assign_req(&self, rhs: u64) -> bool { true }
+    open spec fn add_assign_spec(&self, rhs: u64) -> &VirtAddr { &VirtAddr((self.0 + rhs) as u64) }
+}
+impl SubAssignSpecImpl<u64> for VirtAddr {
+    open spec fn obeys_sub_assign_spec() -> bool { false }
+    open spec fn sub_assign_req(&self, rhs: u64) -> bool { true }
+    open spec fn sub_assign_spec(&self, rhs: u64) -> &VirtAddr { &VirtAddr((self.0 - rhs) as u64) }
+}
+impl AddAssignSpecImpl<u64> for PhysAddr {
+    open spec fn obeys_add_assign_spec() -> bool { false }
+    open spec fn add_assign_req(&self, rhs: u64) -> bool { true }
+    open spec fn add_assign_spec(&self, rhs: u64) -> &PhysAddr { &PhysAddr((self.0 + rhs) as u64) }
+}
+impl SubAssignSpecImpl<u64> for PhysAddr {
+    open spec fn obeys_sub_assign_spec() -> bool { false }
+    open spec fn sub_assign_req(&self, rhs: u64) -> bool { true }
+    open spec fn sub_assign_spec(&self, rhs: u64) -> &PhysAddr { &PhysAddr((self.0 - rhs) as u64) }
+}
+//@ end
+
+// ---------------------------------------------------------------------------
+// PhysAddr
+
+//@ fn src/addr.rs | impl PhysAddr | new_truncate
+//@ obligation C03 C03.PhysAddr_new_truncate.mod_2_52_idempotent
+//@ A
+    ensures
+        r.0 == addr % 0x10_0000_0000_0000, wf_p(r),
+        phys_ok(addr) ==> r.0 == addr,
+        r.0 == (addr & 0xf_ffff_ffff_ffff),
+        r.0 % 0x10_0000_0000_0000 == r.0,
+//@ proof
+        assert((1u64 << 52) == 0x10_0000_0000_0000u64) by (bit_vector);
+        assert(addr % 0x10_0000_0000_0000u64 == addr & 0xf_ffff_ffff_ffff) by (bit_vector);
+//@ end
+
+//@ fn src/addr.rs | impl PhysAddr | try_new
+//@ obligation C03 C03.PhysAddr_try_new.ok_iff_52bit_unchanged
+//@ A
+    ensures
+        r is Ok <==> phys_ok(addr),
+        r is Ok ==> r->Ok_0.0 == addr && wf_p(r->Ok_0),
+        r is Err ==> r->Err_0.0 == addr,
+//@ end
+
+//@ fn src/addr.rs | impl PhysAddr | new
+//@ obligation C03 C03.PhysAddr_new.returns_iff_52bit
+//@ A
+    requires phys_ok(addr),
+    ensures r.0 == addr, wf_p(r),
+//@ B
+    ensures phys_ok(addr), r.0 == addr, wf_p(r),
+//@ end
+
+//@ fn src/addr.rs | impl PhysAddr | new_unsafe
+//@ A
+    requires phys_ok(addr),
+    ensures r.0 == addr,
+//@ end
+
+//@ fn src/addr.rs | impl PhysAddr | zero
+//@ obligation C03 C03.PhysAddr_zero.valid
+//@ A
+    ensures r.0 == 0, wf_p(r),
+//@ end
+
+//@ fn src/addr.rs | impl PhysAddr | as_u64
+//@ A
+    ensures r == self.0,
+//@ end
+
+//@ fn src/addr.rs | impl PhysAddr | is_null
+//@ A
+    ensures r == (self.0 == 0),
+//@ end
+
+//@ fn src/addr.rs | impl PhysAddr | align_up
+//@ obligation C06 C06.PhysAddr_align_up.least_multiple_or_panic_at_2_52
+//@ obligation C03 C03.PhysAddr_align_up.valid
+//@ A
+    requires
+        <U as IntoSpec<u64>>::obeys_into_spec(), wf_p(self),
+        pow2_u64(into_u64(align)), align_up_int(self.0, into_u64(align)) < 0x10_0000_0000_0000,
+    ensures
+        wf_p(r), r.0 as int == align_up_int(self.0, into_u64(align)),
+        r.0 >= self.0, r.0 - self.0 < into_u64(align), is_mult(r.0 as int, into_u64(align) as int),
+        forall|m: int| #[trigger] is_mult(m, into_u64(align) as int) && m >= self.0 ==> m >= r.0,
+//@ B
+    requires <U as IntoSpec<u64>>::obeys_into_spec(), wf_p(self),
+    ensures
+        pow2_u64(into_u64(align)), align_up_int(self.0, into_u64(align)) < 0x10_0000_0000_0000,
+        wf_p(r), r.0 as int == align_up_int(self.0, into_u64(align)),
+//@ proof
+        if pow2_u64(into_u64(align)) { lemma_align_up(self.0, into_u64(align)); }
+//@ end
+
+//@ fn src/addr.rs | impl PhysAddr | align_down
+//@ obligation C06 C06.PhysAddr_align_down.greatest_multiple
+//@ obligation C03 C03.PhysAddr_align_down.valid
+//@ A
+    requires <U as IntoSpec<u64>>::obeys_into_spec(), pow2_u64(into_u64(align)), wf_p(self),
+    ensures wf_p(r), r.0 == align_down_spec(self.0, into_u64(align)),
+//@ B
+    requires <U as IntoSpec<u64>>::obeys_into_spec(), wf_p(self),
+    ensures pow2_u64(into_u64(align)), wf_p(r), r.0 == align_down_spec(self.0, into_u64(align)),
+//@ end
+
+//@ fn src/addr.rs | impl PhysAddr | align_down_u64
+//@ obligation C06 C06.PhysAddr_align_down_u64.greatest_multiple
+//@ obligation C03 C03.PhysAddr_align_down_u64.valid
+//@ A
+    requires pow2_u64(align), wf_p(self),
+    ensures
+        wf_p(r), r.0 == align_down_spec(self.0, align),
+        r.0 <= self.0, self.0 - r.0 < align, is_mult(r.0 as int, align as int),
+        forall|m: u64| #[trigger] is_mult(m as int, align as int) && m <= self.0 ==> m <= r.0,
+//@ B
+    requires wf_p(self),
+    ensures
+        pow2_u64(align),
+        wf_p(r), r.0 == align_down_spec(self.0, align),
+        r.0 <= self.0, self.0 - r.0 < align, is_mult(r.0 as int, align as int),
+        forall|m: u64| #[trigger] is_mult(m as int, align as int) && m <= self.0 ==> m <= r.0,
+//@ end
+
+//@ fn src/addr.rs | impl PhysAddr | is_aligned
+//@ obligation C06 C06.PhysAddr_is_aligned.iff_multiple
+//@ A
+    requires <U as IntoSpec<u64>>::obeys_into_spec(), pow2_u64(into_u64(align)), wf_p(self),
+    ensures r == is_mult(self.0 as int, into_u64(align) as int),
+//@ B
+    requires <U as IntoSpec<u64>>::obeys_into_spec(), wf_p(self),
+    ensures pow2_u64(into_u64(align)), r == is_mult(self.0 as int, into_u64(align) as int),
+//@ end
+
+//@ fn src/addr.rs | impl PhysAddr | is_aligned_u64
+//@ obligation C06 C06.PhysAddr_is_aligned_u64.iff_multiple
+//@ A
+    requires pow2_u64(align), wf_p(self),
+    ensures r == is_mult(self.0 as int, align as int),
+//@ B
+    requires wf_p(self),
+    ensures pow2_u64(align), r == is_mult(self.0 as int, align as int),
+//@ proof
+        if pow2_u64(align) { lemma_align_down(self.0, align); }
+//@ end
+
+//@ fn src/addr.rs | impl Add<u64> for PhysAddr | add
+//@ obligation C07 C07.PhysAddr_add_u64.exact_or_panic
+//@ obligation C03 C03.PhysAddr_add_u64.valid
+//@ A
+    ensures r.0 == self.0 + rhs, wf_p(r),
+//@ B
+    ensures self.0 + rhs <= u64::MAX, phys_ok((self.0 + rhs) as u64), r.0 == self.0 + rhs, wf_p(r),
+//@ end
+
+//@ fn src/addr.rs | impl AddAssign<u64> for PhysAddr | add_assign
+//@ obligation C07 C07.PhysAddr_add_assign_u64.exact_or_panic
+//@ obligation C03 C03.PhysAddr_add_assign_u64.valid
+//@ A
+    ensures final(self).0 == old(self).0 + rhs, wf_p(*final(self)),
+//@ B
+    ensures old(self).0 + rhs <= u64::MAX, phys_ok((old(self).0 + rhs) as u64), final(self).0 == old(self).0 + rhs, wf_p(*final(self)),
+//@ end
+
+//@ fn src/addr.rs | impl Sub<u64> for PhysAddr | sub
+//@ obligation C07 C07.PhysAddr_sub_u64.exact_or_panic
+//@ obligation C03 C03.PhysAddr_sub_u64.valid
+//@ A
+    ensures r.0 == self.0 - rhs, wf_p(r),
+//@ B
+    ensures self.0 >= rhs, phys_ok((self.0 - rhs) as u64), r.0 == self.0 - rhs, wf_p(r),
+//@ end
+
+//@ fn src/addr.rs | impl SubAssign<u64> for PhysAddr | sub_assign
+//@ obligation C07 C07.PhysAddr_sub_assign_u64.exact_or_panic
+//@ obligation C03 C03.PhysAddr_sub_assign_u64.valid
+//@ A
+    ensures final(self).0 == old(self).0 - rhs, wf_p(*final(self)),
+//@ B
+    ensures old(self).0 >= rhs, phys_ok((old(self).0 - rhs) as u64), final(self).0 == old(self).0 - rhs, wf_p(*final(self)),
+//@ end
+
+//@ fn src/addr.rs | impl Sub<PhysAddr> for PhysAddr | sub
+//@ obligation C07 C07.PhysAddr_sub_PhysAddr.exact_or_panic
+//@ A
+    ensures r == self.0 - rhs.0,
+//@ B
+    ensures self.0 >= rhs.0, r == self.0 - rhs.0,
+//@ end
